@@ -93,7 +93,9 @@ def run_case(case: dict) -> CaseResult:
     for i, chunk in enumerate(wire.iter_cut(stream, cuts)):
         before = fed
         try:
-            h.data_received(fstub.as_kind(chunk, kinds[i % len(kinds)]))
+            obj_, recycle_ = fstub.as_kind_recycled(chunk, kinds[i % len(kinds)])
+            h.data_received(obj_)
+            recycle_()  # caller reuses its receive buffer
         except Exception as e:  # noqa: BLE001
             res.violations.append(Violation(ID, f"c03:data_received-raised:{type(e).__name__}", f"chunk {i}: {e!r}"))
             break
